@@ -1,8 +1,70 @@
 import NflowsModel.Core.Driver
-/-! Core/Ops/C10 — driver operations used by the C10 correspondence (executable model, Mathlib-free). -/
+import NflowsModel.Core.Cache
+/-! Core/Ops/C10 — driver operations used by the C10 correspondence (executable model, Mathlib-free).
+
+op `cache_hist`:  s = [kind ("generic" | "naive"), op₁, op₂, …]   i = [training₀, usingCache₀, dtype₀ (0 = f32, 1 = f64)]
+  op strings: train | eval | use_cache:1 | use_cache:0 | use_cache:bad | fwd | inv | update | load | cast:f32 | cast:f64 | fwdBwd
+answer: per step 12 ints
+  [training, usingCache, weightIsNone, inverseIsNone, logabsdetIsNone,   -- white-box state AFTER the step
+   outWv, outWdt, outLv, outLdt,                                         -- versions/dtypes the outputs were computed from (-1 if none)
+   ver, dt,                                                              -- current parameter version / dtype AFTER the step
+   verBefore]                                                            -- parameter version the step was called on
+followed by 2 ints: [updatesOnlyInTraining, noRepeatedBackward] of the whole history (the theorem's hypotheses),
+and per step one string: "-" (returns nothing) | "ok" | "TypeError" | "RuntimeError:dtype" | "RuntimeError:backward".
+The functions executed are `Cache.step` / `Cache.trace`, the ones `Properties.C10` is about. -/
 namespace NF
+open Cache
+
+def parseOp (s : String) : Option Op :=
+  match s with
+  | "train" => some .train
+  | "eval" => some .eval
+  | "use_cache:1" => some (.useCache true)
+  | "use_cache:0" => some (.useCache false)
+  | "use_cache:bad" => some .useCacheBad
+  | "fwd" => some .fwd
+  | "inv" => some .inv
+  | "update" => some .update
+  | "load" => some .load
+  | "cast:f32" => some (.cast .f32)
+  | "cast:f64" => some (.cast .f64)
+  | "fwdBwd" => some .fwdBwd
+  | _ => none
+
+def dtCode : DT → Int | .f32 => 0 | .f64 => 1
+def bInt (b : Bool) : Int := if b then 1 else 0
+
+def outName : Out → String
+  | .none => "-" | .ok .. => "ok" | .errType => "TypeError" | .errDtype => "RuntimeError:dtype"
+  | .errBackward => "RuntimeError:backward"
+
+def outInts : Out → List Int
+  | .ok wv wdt lv ldt => [Int.ofNat wv, dtCode wdt, Int.ofNat lv, dtCode ldt]
+  | _ => [-1, -1, -1, -1]
+
+def runCacheHist (r : Req) : Resp :=
+  let kind? : Option Kind := match r.str 0 with | "generic" => some .generic | "naive" => some .naive | _ => none
+  let ops := (r.strs.toList.drop 1).map parseOp
+  match kind? with
+  | none => { err := some "bad-kind" }
+  | some k =>
+    if ops.any Option.isNone then { err := some "bad-op-string" } else
+    let hist := ops.filterMap id
+    let s0 : St := { training := r.flag 0, usingCache := r.flag 1, dt := if r.flag 2 then .f64 else .f32 }
+    let tr := trace k s0 hist
+    -- version before each step = version after the previous one
+    let versBefore := s0.ver :: tr.map (fun x => x.1.ver)
+    let rows := (tr.zip versBefore).map (fun (x, vb) =>
+      [bInt x.1.training, bInt x.1.usingCache, bInt x.1.cW.isNone, bInt x.1.cInv.isNone, bInt x.1.cLd.isNone]
+        ++ outInts x.2 ++ [Int.ofNat x.1.ver, dtCode x.1.dt, Int.ofNat vb])
+    -- the two hypotheses of `Properties.C10.cache_transparent_partial`, evaluated on this history
+    let hyp := [bInt (updatesOnlyInTraining s0.training hist), bInt (noRepeatedBackward s0.training s0.usingCache false hist)]
+    { ints := rows.flatten ++ hyp, strs := tr.map (fun x => outName x.2) }
 
 /-- handler for the ops of this property; `none` = not one of mine -/
-def handleC10 (_r : Req) : Option Resp := none
+def handleC10 (r : Req) : Option Resp :=
+  match r.op with
+  | "cache_hist" => some (runCacheHist r)
+  | _ => none
 
 end NF
